@@ -191,7 +191,8 @@ def mk_data(ttb, np, spec):
     kind = spec["kind"]
     shape = tuple(spec["shape"])
     if kind == "dense":
-        return ttb.tensor(np.array(spec["data"], dtype=float).reshape(shape, order="F"), shape, copy=True)
+        # optional storage dtype of the dense data (wave 4: the same integer values held as uint8 ... float64); default float64
+        return ttb.tensor(np.array(spec["data"], dtype=spec.get("dtype", float)).reshape(shape, order="F"), shape, copy=True)
     if kind == "sparse":
         s = np.array(spec["subs"], dtype=int).reshape((len(spec["subs"]), len(shape)))
         v = np.array(spec["vals"], dtype=float).reshape((len(spec["vals"]), 1))
